@@ -531,7 +531,13 @@ def law_session(sid: int, seed: int) -> dict:
     rng = random.Random(seed)
     s = MSession(sid, seed)
     variables = pick_vars(rng)
+    if rng.random() < 0.3:
+        # focus: the three operands mostly speak about ONE string variable (==, !=, in, not in, groups), so the laws
+        # exercise the same-variable tables: absorption and distributivity fail when & and | disagree about one pair
+        v = rng.choice(list(STRING_VARS))
+        variables = [v, v, v, rng.choice([x for x in list(STRING_VARS) + ["python_version"] if x != v])]
     set_atom_pool(rng, variables, 4)
+    variables = sorted(set(variables))
     regs = []
     texts = [gen_marker(rng, variables, rng.choice([0, 1, 1])) for _ in range(3)]
     if rng.random() < 0.3:
@@ -703,7 +709,7 @@ def projection_session(sid: int, seed: int) -> dict:
     rng = random.Random(seed)
     s = MSession(sid, seed)
     strings = list(STRING_VARS)
-    v = rng.choice(strings + strings + ["python_version", "extra"])
+    v = rng.choice(strings + strings + ["python_version", "python_version", "extra"])
     w = rng.choice([x for x in strings + ["python_version", "extra", "extra"] if x != v])
     _POOL["atoms"] = None
     inner, outer = rng.choice([(" and ", " or "), (" and ", " or "), (" or ", " and ")])
@@ -713,7 +719,8 @@ def projection_session(sid: int, seed: int) -> dict:
     others = [x for x in strings if x not in (v, w)]
     shared = gen_group(rng, rng.choice(others)) if rng.random() < 0.25 else gen_atom(rng, rng.choice(others), reversed_ok=False) if rng.random() < 0.35 else None
     for _ in range(rng.choice([2, 2, 3])):
-        part = gen_group(rng, v) if rng.random() < 0.6 else gen_atom(rng, v, reversed_ok=False)
+        pv = rng.choice(["python_version", "python_full_version"]) if v == "python_version" else v      # the two python variables merge
+        part = gen_group(rng, pv) if rng.random() < 0.6 else gen_atom(rng, pv, reversed_ok=(v == "python_version"))
         guard = gen_atom(rng, w, reversed_ok=False)
         pair = [part, guard] if rng.random() < 0.7 else [guard, part]
         if shared is not None:
@@ -732,7 +739,8 @@ def projection_session(sid: int, seed: int) -> dict:
     for r in regs:
         if s.dead:
             break
-        for op, names in (("only", [v]), ("exclude", [w]), ("only", [w]), ("exclude", [v]), ("only", [v, w])):
+        vs = ["python_version", "python_full_version"] if v == "python_version" else [v]
+        for op, names in (("only", vs), ("exclude", [w]), ("only", [w]), ("exclude", [v]), ("only", vs + [w])):
             if s.dead:
                 break
             pr = s.project(op, r, names)
